@@ -74,7 +74,7 @@ TOL, TIE = 1e-4, 1e-4
 A = _lib.args()
 torch.set_num_threads(2)
 QUICK = A.tier != "thorough"
-SIZES, SEEDS, B = [5, 7], ([0] if QUICK else [0, 1, 2]), (3 if QUICK else 4)
+SIZES, SEEDS, B = [5, 7], ([0] if QUICK else [0, 1, 2, 3]), (3 if QUICK else 4)
 SM = dict(embed_dim=16, num_heads=2, num_encoder_layers=1)
 
 
